@@ -23,14 +23,16 @@ def mxEquiv (k g : Nat) : VD :=
   let dstr : VD := .dynView g (VDAlts.ofList [VDList.ofList [.text (s "even")], VDList.ofList [.text (s "odd")]])
   -- a `String` value interpolated by the macro: an ordinary dynamic region over the eight texts `dynTextStr (v % 8)`
   let dtxt : VD := .dynView g (VDAlts.ofList ((List.range 8).map fun i => VDList.ofList [.text (dynTextStr i)]))
-  match k % 7 with
+  match k % 9 with
   | 0 => .el (s "p") [] (VDList.ofList [dstr])
   | 1 => .el (s "p") [] (VDList.ofList [dtxt])
   | 2 => .el (s "span") [] (VDList.ofList [dtxt])
   | 3 => dstr
   | 4 => .el (s "div") [(s "title", AttrV.dyn g)] .nil
   | 5 => .el (s "span") [] (VDList.ofList [dstr])
-  | _ => .el (s "div") [(s "hidden", AttrV.dynBool g)] (VDList.ofList [.text (s "x"), dtxt])
+  | 6 => .el (s "div") [(s "hidden", AttrV.dynBool g)] (VDList.ofList [.text (s "x"), dtxt])
+  | 7 => .el (s "title") [] (VDList.ofList [dtxt])
+  | _ => .el (s "style") [] (VDList.ofList [.text (s "p"), dtxt])
 
 mutual
 partial def readVD : Sexp → Option VD
